@@ -51,8 +51,10 @@ FIELDS_B = [{"id": 1, "name": "x", "type": "long", "required": False}, {"id": 2,
 
 def yield_filter(op: str, path: str, phase: tuple) -> bool:
     pcs = P.path_class(path)
-    if op in ("LockTry", "LockRel", "Fence", "Sleep"):
+    if op in ("LockTry", "LockFlock", "LockRel", "Fence", "Sleep"):
         return True
+    if pcs == "lock":
+        return True         # whatever a backend does to the lock file through its own storage operations (create_lock)
     if pcs == "hint" and op in ("exists", "read_file", "read_file_with_etag", "write_file", "write_file_cas"):
         return True
     if op == "list_files" and path.rstrip("/") == "metadata":
@@ -118,6 +120,9 @@ def run_case(ctx, backend: str, init: str, kinds: List[str], chooser_factory, re
     from datashard.storage_backend import LocalStorageBackend
     sc = S.Scheduler()
     sc.yield_filter = yield_filter
+    # the lock file of a table that does not exist yet is created by whoever comes first: opening (creating) it and
+    # flock()ing the inode that open returned are separate steps of every file-lock attempt
+    sc.fine_locks = backend == "local"
     root = os.path.join(ctx.scratch, "c18")
     shutil.rmtree(root, ignore_errors=True)
     store = mems3.MemS3(sc.now_ms) if backend == "s3cas" else None
@@ -345,17 +350,33 @@ def project(out: Dict[str, Any]) -> Tuple[List[Tuple[int, str]], List[str]]:
     decided by the LAST operation of its refresh (pointer read, or the recovery listing when the pointer is absent)."""
     items: List[List[Any]] = []          # [key, actor index, text]
     st: Dict[str, Dict[str, Any]] = {}
-    ext_holder: Optional[str] = None     # a COMMIT (the first appender's; C01's machine) holding the table lock
-    for idx, e in enumerate(out["log"]):
+    log = out["log"]
+    # a file-lock attempt is decided by its flock() (a step of its own on the local backend), not by its beginning
+    decided: Dict[int, int] = {}
+    for idx, e in enumerate(log):
+        if e["op"] == "LockTry":
+            decided[idx] = idx
+            for j in range(idx + 1, len(log)):
+                if log[j]["actor"] == e["actor"]:
+                    if log[j]["op"] == "LockFlock":
+                        decided[idx] = j
+                    break
+    # intervals during which a COMMIT (the first appender's; C01's machine) holds the table lock
+    held: List[Tuple[int, int]] = []
+    open_at: Dict[str, int] = {}
+    for idx, e in enumerate(log):
+        if "MetadataManager.initialize_table" not in e["phase"]:
+            if e["op"] == "LockTry" and e["result"] == "ok":
+                open_at[e["actor"]] = decided[idx]
+            elif e["op"] == "LockRel" and e["actor"] in open_at:
+                held.append((open_at.pop(e["actor"]), idx))
+    held += [(start, len(log)) for start in open_at.values()]
+    for idx, e in enumerate(log):
         a, op, path, phase, result = e["actor"], e["op"], e["path"], e["phase"], e["result"]
         ai = int(a[1:])
         s = st.setdefault(a, {"stage": "probe", "probe": None, "check": None, "adopt": None})
         pcs = P.path_class(path)
-        if "MetadataManager.initialize_table" not in phase:
-            if op == "LockTry" and result == "ok":
-                ext_holder = a
-            elif op == "LockRel" and ext_holder == a:
-                ext_holder = None
+        ext_holder = op == "LockTry" and any(start < decided[idx] <= end for start, end in held)
         if any(p.startswith("Transaction.") for p in phase) or "Table.append_records" in phase:
             continue      # the appender's transaction: C01's machine
         in_init = "MetadataManager.initialize_table" in phase
@@ -368,7 +389,7 @@ def project(out: Dict[str, Any]) -> Tuple[List[Tuple[int, str]], List[str]]:
                 s["probe"][0] = idx
             if op == "list_files" or (pcs == "hint" and op == "read_file"):
                 s["refresh_done"] = True      # later refreshes of the same call (create_table's schema check) are not the probe
-        elif in_init and op == "LockTry" and result != "ok" and ext_holder is not None:
+        elif in_init and op == "LockTry" and result != "ok" and ext_holder:
             # the lock is held by a committer, which Model/Create.v does not contain: a failed try is a stutter step
             if s["probe"] is not None:
                 s["probe"][2] = "CProbe false"
@@ -376,8 +397,12 @@ def project(out: Dict[str, Any]) -> Tuple[List[Tuple[int, str]], List[str]]:
         elif in_init and op == "LockTry":
             if s["probe"] is not None:
                 s["probe"][2] = "CProbe false"
-            items.append([idx, ai, f"CLockTry {'true' if result == 'ok' else 'false'}"])
+            s["locktry"] = [idx, ai, f"CLockTry {'true' if result == 'ok' else 'false'}"]
+            items.append(s["locktry"])
             s["stage"] = "check" if result == "ok" else "lockwait"
+        elif in_init and op == "LockFlock":
+            if s.get("locktry") is not None:
+                s["locktry"][0] = idx       # the attempt is decided by its flock(), a step of its own
         elif in_init and s["stage"] == "check" and is_resolve_op:
             if s["check"] is None:
                 s["check"] = [idx, ai, "CCheck true"]
@@ -508,7 +533,9 @@ def run(ctx) -> None:
     total = 0
     outside = [0]
     for backend, init, kinds in plans:
-        runs = list(explore(ctx, backend, init, kinds, 2 if quick else 3, (22 if init == "absent" else 6) if quick else 300))
+        # two creators of a table that does not exist yet (nor does its lock file): EVERY schedule with at most two preemptions
+        full = init == "absent" and kinds == ["create", "create"]
+        runs = list(explore(ctx, backend, init, kinds, 2 if quick else 3, (600 if full else 22 if init == "absent" else 6) if quick else 3000 if full else 300))
         for k in range(2 if quick else 40):
             seed = ctx.rng.randrange(1 << 30)
             runs.append(([("random", seed)], run_case(ctx, backend, init, kinds, lambda sc, seed=seed: S.random_chooser(_r.Random(seed), 0.4))))
